@@ -11,34 +11,36 @@ import (
 
 func p() { vsched.AtomicPoint() }
 
-func AddInt32(a *int32, d int32) int32                 { p(); return atomic.AddInt32(a, d) }
-func AddInt64(a *int64, d int64) int64                 { p(); return atomic.AddInt64(a, d) }
-func AddUint32(a *uint32, d uint32) uint32             { p(); return atomic.AddUint32(a, d) }
-func AddUint64(a *uint64, d uint64) uint64             { p(); return atomic.AddUint64(a, d) }
-func AddUintptr(a *uintptr, d uintptr) uintptr         { p(); return atomic.AddUintptr(a, d) }
-func LoadInt32(a *int32) int32                         { p(); return atomic.LoadInt32(a) }
-func LoadInt64(a *int64) int64                         { p(); return atomic.LoadInt64(a) }
-func LoadUint32(a *uint32) uint32                      { p(); return atomic.LoadUint32(a) }
-func LoadUint64(a *uint64) uint64                      { p(); return atomic.LoadUint64(a) }
-func LoadUintptr(a *uintptr) uintptr                   { p(); return atomic.LoadUintptr(a) }
-func LoadPointer(a *unsafe.Pointer) unsafe.Pointer     { p(); return atomic.LoadPointer(a) }
-func StoreInt32(a *int32, v int32)                     { p(); atomic.StoreInt32(a, v) }
-func StoreInt64(a *int64, v int64)                     { p(); atomic.StoreInt64(a, v) }
-func StoreUint32(a *uint32, v uint32)                  { p(); atomic.StoreUint32(a, v) }
-func StoreUint64(a *uint64, v uint64)                  { p(); atomic.StoreUint64(a, v) }
-func StoreUintptr(a *uintptr, v uintptr)               { p(); atomic.StoreUintptr(a, v) }
-func StorePointer(a *unsafe.Pointer, v unsafe.Pointer) { p(); atomic.StorePointer(a, v) }
-func SwapInt32(a *int32, v int32) int32                { p(); return atomic.SwapInt32(a, v) }
-func SwapInt64(a *int64, v int64) int64                { p(); return atomic.SwapInt64(a, v) }
-func SwapUint32(a *uint32, v uint32) uint32            { p(); return atomic.SwapUint32(a, v) }
-func SwapUint64(a *uint64, v uint64) uint64            { p(); return atomic.SwapUint64(a, v) }
-func SwapUintptr(a *uintptr, v uintptr) uintptr        { p(); return atomic.SwapUintptr(a, v) }
+func pa(a unsafe.Pointer, w bool) { vsched.AtomicPoint(); vsched.AtomicAccess(a, w) }
+
+func AddInt32(a *int32, d int32) int32                 { pa(unsafe.Pointer(a), true); return atomic.AddInt32(a, d) }
+func AddInt64(a *int64, d int64) int64                 { pa(unsafe.Pointer(a), true); return atomic.AddInt64(a, d) }
+func AddUint32(a *uint32, d uint32) uint32             { pa(unsafe.Pointer(a), true); return atomic.AddUint32(a, d) }
+func AddUint64(a *uint64, d uint64) uint64             { pa(unsafe.Pointer(a), true); return atomic.AddUint64(a, d) }
+func AddUintptr(a *uintptr, d uintptr) uintptr         { pa(unsafe.Pointer(a), true); return atomic.AddUintptr(a, d) }
+func LoadInt32(a *int32) int32                         { pa(unsafe.Pointer(a), false); return atomic.LoadInt32(a) }
+func LoadInt64(a *int64) int64                         { pa(unsafe.Pointer(a), false); return atomic.LoadInt64(a) }
+func LoadUint32(a *uint32) uint32                      { pa(unsafe.Pointer(a), false); return atomic.LoadUint32(a) }
+func LoadUint64(a *uint64) uint64                      { pa(unsafe.Pointer(a), false); return atomic.LoadUint64(a) }
+func LoadUintptr(a *uintptr) uintptr                   { pa(unsafe.Pointer(a), false); return atomic.LoadUintptr(a) }
+func LoadPointer(a *unsafe.Pointer) unsafe.Pointer     { pa(unsafe.Pointer(a), false); return atomic.LoadPointer(a) }
+func StoreInt32(a *int32, v int32)                     { pa(unsafe.Pointer(a), true); atomic.StoreInt32(a, v) }
+func StoreInt64(a *int64, v int64)                     { pa(unsafe.Pointer(a), true); atomic.StoreInt64(a, v) }
+func StoreUint32(a *uint32, v uint32)                  { pa(unsafe.Pointer(a), true); atomic.StoreUint32(a, v) }
+func StoreUint64(a *uint64, v uint64)                  { pa(unsafe.Pointer(a), true); atomic.StoreUint64(a, v) }
+func StoreUintptr(a *uintptr, v uintptr)               { pa(unsafe.Pointer(a), true); atomic.StoreUintptr(a, v) }
+func StorePointer(a *unsafe.Pointer, v unsafe.Pointer) { pa(unsafe.Pointer(a), true); atomic.StorePointer(a, v) }
+func SwapInt32(a *int32, v int32) int32                { pa(unsafe.Pointer(a), true); return atomic.SwapInt32(a, v) }
+func SwapInt64(a *int64, v int64) int64                { pa(unsafe.Pointer(a), true); return atomic.SwapInt64(a, v) }
+func SwapUint32(a *uint32, v uint32) uint32            { pa(unsafe.Pointer(a), true); return atomic.SwapUint32(a, v) }
+func SwapUint64(a *uint64, v uint64) uint64            { pa(unsafe.Pointer(a), true); return atomic.SwapUint64(a, v) }
+func SwapUintptr(a *uintptr, v uintptr) uintptr        { pa(unsafe.Pointer(a), true); return atomic.SwapUintptr(a, v) }
 func SwapPointer(a *unsafe.Pointer, v unsafe.Pointer) unsafe.Pointer {
 	p()
 	return atomic.SwapPointer(a, v)
 }
-func CompareAndSwapInt32(a *int32, o, n int32) bool { p(); return atomic.CompareAndSwapInt32(a, o, n) }
-func CompareAndSwapInt64(a *int64, o, n int64) bool { p(); return atomic.CompareAndSwapInt64(a, o, n) }
+func CompareAndSwapInt32(a *int32, o, n int32) bool { pa(unsafe.Pointer(a), true); return atomic.CompareAndSwapInt32(a, o, n) }
+func CompareAndSwapInt64(a *int64, o, n int64) bool { pa(unsafe.Pointer(a), true); return atomic.CompareAndSwapInt64(a, o, n) }
 func CompareAndSwapUint32(a *uint32, o, n uint32) bool {
 	p()
 	return atomic.CompareAndSwapUint32(a, o, n)
@@ -55,80 +57,80 @@ func CompareAndSwapPointer(a *unsafe.Pointer, o, n unsafe.Pointer) bool {
 	p()
 	return atomic.CompareAndSwapPointer(a, o, n)
 }
-func AndInt32(a *int32, m int32) int32     { p(); return atomic.AndInt32(a, m) }
-func AndUint32(a *uint32, m uint32) uint32 { p(); return atomic.AndUint32(a, m) }
-func AndInt64(a *int64, m int64) int64     { p(); return atomic.AndInt64(a, m) }
-func AndUint64(a *uint64, m uint64) uint64 { p(); return atomic.AndUint64(a, m) }
-func OrInt32(a *int32, m int32) int32      { p(); return atomic.OrInt32(a, m) }
-func OrUint32(a *uint32, m uint32) uint32  { p(); return atomic.OrUint32(a, m) }
-func OrInt64(a *int64, m int64) int64      { p(); return atomic.OrInt64(a, m) }
-func OrUint64(a *uint64, m uint64) uint64  { p(); return atomic.OrUint64(a, m) }
+func AndInt32(a *int32, m int32) int32     { pa(unsafe.Pointer(a), true); return atomic.AndInt32(a, m) }
+func AndUint32(a *uint32, m uint32) uint32 { pa(unsafe.Pointer(a), true); return atomic.AndUint32(a, m) }
+func AndInt64(a *int64, m int64) int64     { pa(unsafe.Pointer(a), true); return atomic.AndInt64(a, m) }
+func AndUint64(a *uint64, m uint64) uint64 { pa(unsafe.Pointer(a), true); return atomic.AndUint64(a, m) }
+func OrInt32(a *int32, m int32) int32      { pa(unsafe.Pointer(a), true); return atomic.OrInt32(a, m) }
+func OrUint32(a *uint32, m uint32) uint32  { pa(unsafe.Pointer(a), true); return atomic.OrUint32(a, m) }
+func OrInt64(a *int64, m int64) int64      { pa(unsafe.Pointer(a), true); return atomic.OrInt64(a, m) }
+func OrUint64(a *uint64, m uint64) uint64  { pa(unsafe.Pointer(a), true); return atomic.OrUint64(a, m) }
 
 type Bool struct{ v atomic.Bool }
 
-func (x *Bool) Load() bool                    { p(); return x.v.Load() }
-func (x *Bool) Store(v bool)                  { p(); x.v.Store(v) }
-func (x *Bool) Swap(v bool) bool              { p(); return x.v.Swap(v) }
-func (x *Bool) CompareAndSwap(o, n bool) bool { p(); return x.v.CompareAndSwap(o, n) }
+func (x *Bool) Load() bool                    { pa(unsafe.Pointer(&x.v), false); return x.v.Load() }
+func (x *Bool) Store(v bool)                  { pa(unsafe.Pointer(&x.v), true); x.v.Store(v) }
+func (x *Bool) Swap(v bool) bool              { pa(unsafe.Pointer(&x.v), true); return x.v.Swap(v) }
+func (x *Bool) CompareAndSwap(o, n bool) bool { pa(unsafe.Pointer(&x.v), true); return x.v.CompareAndSwap(o, n) }
 
 type Int32 struct{ v atomic.Int32 }
 
-func (x *Int32) Load() int32                    { p(); return x.v.Load() }
-func (x *Int32) Store(v int32)                  { p(); x.v.Store(v) }
-func (x *Int32) Swap(v int32) int32             { p(); return x.v.Swap(v) }
-func (x *Int32) Add(d int32) int32              { p(); return x.v.Add(d) }
-func (x *Int32) CompareAndSwap(o, n int32) bool { p(); return x.v.CompareAndSwap(o, n) }
-func (x *Int32) And(m int32) int32              { p(); return x.v.And(m) }
-func (x *Int32) Or(m int32) int32               { p(); return x.v.Or(m) }
+func (x *Int32) Load() int32                    { pa(unsafe.Pointer(&x.v), false); return x.v.Load() }
+func (x *Int32) Store(v int32)                  { pa(unsafe.Pointer(&x.v), true); x.v.Store(v) }
+func (x *Int32) Swap(v int32) int32             { pa(unsafe.Pointer(&x.v), true); return x.v.Swap(v) }
+func (x *Int32) Add(d int32) int32              { pa(unsafe.Pointer(&x.v), true); return x.v.Add(d) }
+func (x *Int32) CompareAndSwap(o, n int32) bool { pa(unsafe.Pointer(&x.v), true); return x.v.CompareAndSwap(o, n) }
+func (x *Int32) And(m int32) int32              { pa(unsafe.Pointer(&x.v), true); return x.v.And(m) }
+func (x *Int32) Or(m int32) int32               { pa(unsafe.Pointer(&x.v), true); return x.v.Or(m) }
 
 type Int64 struct{ v atomic.Int64 }
 
-func (x *Int64) Load() int64                    { p(); return x.v.Load() }
-func (x *Int64) Store(v int64)                  { p(); x.v.Store(v) }
-func (x *Int64) Swap(v int64) int64             { p(); return x.v.Swap(v) }
-func (x *Int64) Add(d int64) int64              { p(); return x.v.Add(d) }
-func (x *Int64) CompareAndSwap(o, n int64) bool { p(); return x.v.CompareAndSwap(o, n) }
-func (x *Int64) And(m int64) int64              { p(); return x.v.And(m) }
-func (x *Int64) Or(m int64) int64               { p(); return x.v.Or(m) }
+func (x *Int64) Load() int64                    { pa(unsafe.Pointer(&x.v), false); return x.v.Load() }
+func (x *Int64) Store(v int64)                  { pa(unsafe.Pointer(&x.v), true); x.v.Store(v) }
+func (x *Int64) Swap(v int64) int64             { pa(unsafe.Pointer(&x.v), true); return x.v.Swap(v) }
+func (x *Int64) Add(d int64) int64              { pa(unsafe.Pointer(&x.v), true); return x.v.Add(d) }
+func (x *Int64) CompareAndSwap(o, n int64) bool { pa(unsafe.Pointer(&x.v), true); return x.v.CompareAndSwap(o, n) }
+func (x *Int64) And(m int64) int64              { pa(unsafe.Pointer(&x.v), true); return x.v.And(m) }
+func (x *Int64) Or(m int64) int64               { pa(unsafe.Pointer(&x.v), true); return x.v.Or(m) }
 
 type Uint32 struct{ v atomic.Uint32 }
 
-func (x *Uint32) Load() uint32                    { p(); return x.v.Load() }
-func (x *Uint32) Store(v uint32)                  { p(); x.v.Store(v) }
-func (x *Uint32) Swap(v uint32) uint32            { p(); return x.v.Swap(v) }
-func (x *Uint32) Add(d uint32) uint32             { p(); return x.v.Add(d) }
-func (x *Uint32) CompareAndSwap(o, n uint32) bool { p(); return x.v.CompareAndSwap(o, n) }
-func (x *Uint32) And(m uint32) uint32             { p(); return x.v.And(m) }
-func (x *Uint32) Or(m uint32) uint32              { p(); return x.v.Or(m) }
+func (x *Uint32) Load() uint32                    { pa(unsafe.Pointer(&x.v), false); return x.v.Load() }
+func (x *Uint32) Store(v uint32)                  { pa(unsafe.Pointer(&x.v), true); x.v.Store(v) }
+func (x *Uint32) Swap(v uint32) uint32            { pa(unsafe.Pointer(&x.v), true); return x.v.Swap(v) }
+func (x *Uint32) Add(d uint32) uint32             { pa(unsafe.Pointer(&x.v), true); return x.v.Add(d) }
+func (x *Uint32) CompareAndSwap(o, n uint32) bool { pa(unsafe.Pointer(&x.v), true); return x.v.CompareAndSwap(o, n) }
+func (x *Uint32) And(m uint32) uint32             { pa(unsafe.Pointer(&x.v), true); return x.v.And(m) }
+func (x *Uint32) Or(m uint32) uint32              { pa(unsafe.Pointer(&x.v), true); return x.v.Or(m) }
 
 type Uint64 struct{ v atomic.Uint64 }
 
-func (x *Uint64) Load() uint64                    { p(); return x.v.Load() }
-func (x *Uint64) Store(v uint64)                  { p(); x.v.Store(v) }
-func (x *Uint64) Swap(v uint64) uint64            { p(); return x.v.Swap(v) }
-func (x *Uint64) Add(d uint64) uint64             { p(); return x.v.Add(d) }
-func (x *Uint64) CompareAndSwap(o, n uint64) bool { p(); return x.v.CompareAndSwap(o, n) }
-func (x *Uint64) And(m uint64) uint64             { p(); return x.v.And(m) }
-func (x *Uint64) Or(m uint64) uint64              { p(); return x.v.Or(m) }
+func (x *Uint64) Load() uint64                    { pa(unsafe.Pointer(&x.v), false); return x.v.Load() }
+func (x *Uint64) Store(v uint64)                  { pa(unsafe.Pointer(&x.v), true); x.v.Store(v) }
+func (x *Uint64) Swap(v uint64) uint64            { pa(unsafe.Pointer(&x.v), true); return x.v.Swap(v) }
+func (x *Uint64) Add(d uint64) uint64             { pa(unsafe.Pointer(&x.v), true); return x.v.Add(d) }
+func (x *Uint64) CompareAndSwap(o, n uint64) bool { pa(unsafe.Pointer(&x.v), true); return x.v.CompareAndSwap(o, n) }
+func (x *Uint64) And(m uint64) uint64             { pa(unsafe.Pointer(&x.v), true); return x.v.And(m) }
+func (x *Uint64) Or(m uint64) uint64              { pa(unsafe.Pointer(&x.v), true); return x.v.Or(m) }
 
 type Uintptr struct{ v atomic.Uintptr }
 
-func (x *Uintptr) Load() uintptr                    { p(); return x.v.Load() }
-func (x *Uintptr) Store(v uintptr)                  { p(); x.v.Store(v) }
-func (x *Uintptr) Swap(v uintptr) uintptr           { p(); return x.v.Swap(v) }
-func (x *Uintptr) Add(d uintptr) uintptr            { p(); return x.v.Add(d) }
-func (x *Uintptr) CompareAndSwap(o, n uintptr) bool { p(); return x.v.CompareAndSwap(o, n) }
+func (x *Uintptr) Load() uintptr                    { pa(unsafe.Pointer(&x.v), false); return x.v.Load() }
+func (x *Uintptr) Store(v uintptr)                  { pa(unsafe.Pointer(&x.v), true); x.v.Store(v) }
+func (x *Uintptr) Swap(v uintptr) uintptr           { pa(unsafe.Pointer(&x.v), true); return x.v.Swap(v) }
+func (x *Uintptr) Add(d uintptr) uintptr            { pa(unsafe.Pointer(&x.v), true); return x.v.Add(d) }
+func (x *Uintptr) CompareAndSwap(o, n uintptr) bool { pa(unsafe.Pointer(&x.v), true); return x.v.CompareAndSwap(o, n) }
 
 type Pointer[T any] struct{ v atomic.Pointer[T] }
 
-func (x *Pointer[T]) Load() *T                    { p(); return x.v.Load() }
-func (x *Pointer[T]) Store(v *T)                  { p(); x.v.Store(v) }
-func (x *Pointer[T]) Swap(v *T) *T                { p(); return x.v.Swap(v) }
-func (x *Pointer[T]) CompareAndSwap(o, n *T) bool { p(); return x.v.CompareAndSwap(o, n) }
+func (x *Pointer[T]) Load() *T                    { pa(unsafe.Pointer(&x.v), false); return x.v.Load() }
+func (x *Pointer[T]) Store(v *T)                  { pa(unsafe.Pointer(&x.v), true); x.v.Store(v) }
+func (x *Pointer[T]) Swap(v *T) *T                { pa(unsafe.Pointer(&x.v), true); return x.v.Swap(v) }
+func (x *Pointer[T]) CompareAndSwap(o, n *T) bool { pa(unsafe.Pointer(&x.v), true); return x.v.CompareAndSwap(o, n) }
 
 type Value struct{ v atomic.Value }
 
-func (x *Value) Load() any                    { p(); return x.v.Load() }
-func (x *Value) Store(v any)                  { p(); x.v.Store(v) }
-func (x *Value) Swap(v any) any               { p(); return x.v.Swap(v) }
-func (x *Value) CompareAndSwap(o, n any) bool { p(); return x.v.CompareAndSwap(o, n) }
+func (x *Value) Load() any                    { pa(unsafe.Pointer(&x.v), false); return x.v.Load() }
+func (x *Value) Store(v any)                  { pa(unsafe.Pointer(&x.v), true); x.v.Store(v) }
+func (x *Value) Swap(v any) any               { pa(unsafe.Pointer(&x.v), true); return x.v.Swap(v) }
+func (x *Value) CompareAndSwap(o, n any) bool { pa(unsafe.Pointer(&x.v), true); return x.v.CompareAndSwap(o, n) }
